@@ -21,6 +21,14 @@ import (
 	"google.golang.org/grpc/status"
 )
 
+// The migrator may also ask the source for its tree head itself (rather than through the fetcher):
+// the same scripted answers are served.
+//
+//verif:stub (*github.com/google/certificate-transparency-go/client.LogClient).GetSTH files=controller.go method=GetSTH
+func c20GetSTH(_ *client.LogClient, ctx context.Context) (*ct.SignedTreeHead, error) {
+	return scanner.VerifHookGetSTH(ctx)
+}
+
 // Concurrency harness (engine option sched=1): Controller.fetchTail with its range generator,
 // fetch workers and submitters interleaved at every synchronisation point within the delay bound.
 
@@ -96,16 +104,26 @@ func Harness_C20_fetchTail() {
 		dst.fatalAt = int64(1 + vChoice("fatal-at", 3))
 	}
 	short := vChoice("short-read", 2) == 1
-	src := make([]ct.LeafEntry, srcSize)
+	// the source keeps growing: the first tree head it serves has size 4 (that is the head whose
+	// consistency the migrator verifies), every later one has size 5
+	src := make([]ct.LeafEntry, srcSize+1)
 	for i := range src {
 		src[i] = c20Leaf([]byte{byte(0x40 + i)})
 	}
+	var sthMu sync.Mutex
+	sthCalls := 0
 	scanner.VerifHookGetSTH = func(context.Context) (*ct.SignedTreeHead, error) {
-		return &ct.SignedTreeHead{TreeSize: srcSize}, nil
+		sthMu.Lock()
+		defer sthMu.Unlock()
+		sthCalls++
+		if sthCalls == 1 {
+			return &ct.SignedTreeHead{TreeSize: srcSize}, nil
+		}
+		return &ct.SignedTreeHead{TreeSize: srcSize + 1}, nil
 	}
 	scanner.VerifHookGetRawEntries = func(_ context.Context, s, e int64) (*ct.GetEntriesResponse, error) {
 		vSched("get " + strconv.FormatInt(s, 10))
-		if s < 0 || e < s || e >= srcSize {
+		if s < 0 || e < s || e > srcSize {
 			return nil, errors.New("bad range")
 		}
 		if short && e > s {
